@@ -20,10 +20,13 @@ var verbose = flag.Bool("v", false, "print per-configuration statistics")
 // runUnit enumerates the configurations of the selected unit (sharded) and explores each.
 func runUnit(res *common.Result) {
 	var idx int64
-	aliasAll, errKind, sharedAll, attrsAll := 0, 0, false, 0
+	aliasAll, errKind, sharedAll, attrsAll, viaConfig := 0, 0, false, 0, false
 	each := func(cfg Cfg, bound int, quiescentOnly, prune bool) bool {
 		if attrsAll != 0 {
 			cfg.Attrs = attrsAll
+		}
+		if viaConfig {
+			cfg.ViaConfig = true
 		}
 		if aliasAll != 0 {
 			cfg.Alias = aliasAll
@@ -200,6 +203,16 @@ func runUnit(res *common.Result) {
 		dags(1, 3, sigma, 1, false, *pruneFlag, nil)
 	case "nested-shared-orders":
 		sharedAll = true
+		nested(func(c Cfg) bool { return each(c, 0, true, *pruneFlag) })
+	case "dag3-config-orders": // every DAG<=3 x Sigma^n built through the configuration builder, every completion order
+		viaConfig = true
+		dags(1, 3, sigma, 0, true, *pruneFlag, nil)
+	case "dag3-config-b1":
+		res.Bound = 1
+		viaConfig = true
+		dags(1, 3, sigma, 1, false, *pruneFlag, nil)
+	case "nested-config-orders":
+		viaConfig = true
 		nested(func(c Cfg) bool { return each(c, 0, true, *pruneFlag) })
 	case "dag3-attrs-orders": // task attributes that must not matter to the scheduler, one at a time
 		for _, attrsAll = range []int{1, 2, 4, 8, 16} {
